@@ -1,4 +1,5 @@
-From OV Require Import Base.CInt Emu.LoaderMetaDefs Emu.VersionDefs Rt.RtMetaDefs.
+From OV Require Import Base.CInt Emu.LoaderMetaDefs Emu.VersionDefs Emu.MarkDefs Rt.RtMetaDefs Rt.MarkJsonDefs.
 From Coq Require Import ExtrOcamlBasic.
 Extraction "rtmeta_x.ml" run meta_conformant to_loader_meta meta_check to_thread_req to_stream_meta
-  tagged writes disk user_key dotget dotset.
+  tagged writes disk user_key dotget dotset
+  mrun parse_mark_json emu_types_of_trees emu_pcf_of_trees.
